@@ -48,6 +48,8 @@ func (c *Ctx) operandOf(v Value) operand {
 type funcOpts struct {
 	reuse    *Shadow
 	sameType bool
+	unsafe   bool      // UseUnsafe: gorgonia overwrites an operand and returns it
+	operands []*Shadow // the tensor operands of the call (candidates for the overwritten one)
 	native   []tensor.FuncOpt
 }
 
@@ -68,6 +70,9 @@ func (c *Ctx) funcOpts(v Value) funcOpts {
 		case "AsSameType":
 			fo.sameType = true
 			fo.native = append(fo.native, tensor.AsSameType())
+		case "UseUnsafe":
+			fo.unsafe = true
+			fo.native = append(fo.native, tensor.UseUnsafe())
 		default:
 			panic(c.abort("FuncOpt %s", ov.Kind))
 		}
@@ -209,6 +214,19 @@ func (c *Ctx) finishResult(res tensor.Tensor, fo funcOpts, dt tensor.Dtype, term
 		c.writeLogical(fo.reuse, terms)
 		return fo.reuse
 	}
+	if fo.unsafe {
+		// the real call has overwritten one of its operands and returned that very object
+		for _, cand := range fo.operands {
+			if cand != nil && cand.twin == rd {
+				if cand.dt != dt {
+					panic(c.abort("UseUnsafe: result dtype %v written into operand of dtype %v", dt, cand.dt))
+				}
+				c.writeLogical(cand, terms)
+				return cand
+			}
+		}
+		panic(c.abort("UseUnsafe: the result is none of the operands (unmodelled)"))
+	}
 	n := c.newShadowFromTerms(dt, append([]int(nil), rd.Shape()...), terms)
 	n.twin = rd
 	if rd.Dtype() != dt {
@@ -221,6 +239,7 @@ func (c *Ctx) binaryTensorOp(op string, fn *ssa.Function, a []Value) Value {
 	c.E.Stubs["tensor."+op]++
 	x, y := c.operandOf(a[0]), c.operandOf(a[1])
 	fo := c.funcOpts(a[2])
+	fo.operands = []*Shadow{x.sh, y.sh}
 	var res tensor.Tensor
 	var err error
 	if p := c.nativeCall(op, func() {
@@ -425,6 +444,7 @@ func (c *Ctx) unaryTensorOp(op string, fn *ssa.Function, a []Value) Value {
 		panic(c.goPanic("%s of nil tensor", op))
 	}
 	fo := c.funcOpts(a[1])
+	fo.operands = []*Shadow{s}
 	var res tensor.Tensor
 	var err error
 	if p := c.nativeCall(op, func() {
@@ -525,6 +545,7 @@ func applyMethod(c *Ctx, s *Shadow, args []Value, sig *types.Signature) Value {
 		natFn = func() {}
 	}
 	fo := c.funcOpts(args[1])
+	fo.operands = []*Shadow{s}
 	var res tensor.Tensor
 	var err error
 	if p := c.nativeCall("Apply", func() { res, err = s.twin.Apply(natFn, fo.native...) }); p != nil {
